@@ -241,22 +241,11 @@ func manifestVariants(src []byte, visit func(desc string, doc []byte)) {
 	// an extension subtree as last child of the root: every combination of an
 	// outer binding on the root, a (re)binding and a use on the extension element
 	// and on its child, for a prefix the manifest does not know
-	rootEnd := xmlgen.Match(toks)[root]
-	if !toks[root].SelfClose && rootEnd > root {
-		xmlgen.Extensions(func(e xmlgen.Extension) {
-			c := make([]xmlgen.Token, 0, len(toks)+1)
-			c = append(c, toks[:rootEnd]...)
-			c = append(c, xmlgen.Token{Kind: xmlgen.Text, Raw: string(e.Subtree)})
-			c = append(c, toks[rootEnd:]...)
-			nt := toks[root]
-			nt.Attrs = append([]xmlgen.Attr(nil), nt.Attrs...)
-			for _, d := range e.HostDecls {
-				nt.Attrs = append(nt.Attrs, xmlgen.Attr{Pre: " ", Name: "xmlns:" + d.Prefix, Quote: '"', Raw: d.URI})
-			}
-			c[root] = nt
-			visit("extension-subtree: "+e.Desc, xmlgen.Serialize(c))
-		})
-	}
+	xmlgen.Extensions(func(e xmlgen.Extension) {
+		if doc, err := e.Embed(src); err == nil {
+			visit("extension-subtree: "+e.Desc, doc)
+		}
+	})
 	// escapable characters at one attribute site and one text site
 	for i, t := range toks {
 		if t.Kind == xmlgen.Start && strings.HasSuffix(t.Name, "commandLine") {
